@@ -54,9 +54,17 @@ func runQuery(L *Loaded, asserts []*smt.Term, gets []*smt.Term, timeout, seed in
 		// The instances never enter the main script (they slow the solvers down on problems with many
 		// quantified hypotheses); they form a separate quantifier-free script raced beside it.
 		if smt.HasQuant(asserts...) {
-			extra, qfree := X.InstantiateHints(asserts, 4)
-			if len(extra) > 0 && len(extra) <= 80 {
-				weak = X.Script(append(append([]*smt.Term{}, qfree...), extra...), nil, "ALL", true)
+			extra, qfree := X.InstantiateHints(asserts, 8)
+			if len(extra) > 0 && len(extra) <= 200 {
+				// lambda terms make the solvers give up ("unknown") even where they are irrelevant:
+				// the weakening keeps only lambda-free hypotheses and instances
+				var ws []*smt.Term
+				for _, t := range append(append([]*smt.Term{}, qfree...), extra...) {
+					if !smt.HasLambda(t) {
+						ws = append(ws, t)
+					}
+				}
+				weak = X.Script(ws, nil, "ALL", true)
 			}
 		}
 	}
@@ -79,13 +87,11 @@ func runQuery(L *Loaded, asserts []*smt.Term, gets []*smt.Term, timeout, seed in
 	}
 	solverSem <- struct{}{}
 	res, err := smt.SolveWithAbstraction(sc, abs, weak, light, len(gets), timeout, seed, os.Getenv("GOVC_SOLVER"))
-	if err == nil && crossCheck && res.Verdict == smt.Unsat {
-		// thorough tier: every back end runs the full script to completion (bounded); a second
-		// independent "unsat" is recorded, a "sat" against the winner's "unsat" is a broken check
-		t := timeout / 4
-		if t < 10 {
-			t = 10
-		}
+	if err == nil && crossCheck && res.Verdict == smt.Unsat && res.Seconds <= 20 {
+		// thorough tier: every back end runs the full script to completion (bounded at 30 s; queries
+		// whose first answer already took longer than 20 s are not repeated); a second independent
+		// "unsat" is recorded, a "sat" against the winner's "unsat" is noted
+		t := 30
 		agree, sat := 0, 0
 		for _, r := range smt.SolveAll(sc, 0, t, seed) {
 			switch r.Verdict {
